@@ -647,23 +647,46 @@ func (r *runner) resolveCompletedTasks(ctx context.Context, completedTasks []*ta
 		for _, key := range nextNodeKeys {
 			newDependencies[key] = append(newDependencies[key], t.nodeKey)
 		}
-		nextNodeKeys = append(nextNodeKeys, t.call.writeTo...)
+		// A successor selected by several branches, or by a branch and a direct edge, receives the output once.
+		nextNodeKeys = uniqueKeys(append(nextNodeKeys, t.call.writeTo...))
+
+		// The copies that have not been consumed by the branches are handed to the successors.
+		vs = vs[:len(vs)-len(t.call.writeToBranches)]
 
 		// If branches generates more than one successor, the inputs need to be copied accordingly.
-		if len(nextNodeKeys) > 0 {
-			toCopyNum := len(nextNodeKeys) - len(t.call.writeTo) - len(t.call.writeToBranches)
-			nVs := copyItem(vs[len(t.call.writeTo)+len(t.call.writeToBranches)-1], toCopyNum+1)
-			vs = append(vs[:len(t.call.writeTo)+len(t.call.writeToBranches)-1], nVs...)
+		if toCopyNum := len(nextNodeKeys) - len(vs); toCopyNum > 0 {
+			nVs := copyItem(vs[len(vs)-1], toCopyNum+1)
+			vs = append(vs[:len(vs)-1], nVs...)
+		}
 
-			for i, next := range nextNodeKeys {
-				if _, ok := writeChannelValues[next]; !ok {
-					writeChannelValues[next] = make(map[string]any)
-				}
-				writeChannelValues[next][t.nodeKey] = vs[i]
+		for i, next := range nextNodeKeys {
+			if _, ok := writeChannelValues[next]; !ok {
+				writeChannelValues[next] = make(map[string]any)
+			}
+			writeChannelValues[next][t.nodeKey] = vs[i]
+		}
+
+		// If branches generates fewer successors than copies were made for, the copies that
+		// nobody will read must be closed, otherwise the source stream is never released.
+		for _, v := range vs[len(nextNodeKeys):] {
+			if sr, ok := v.(streamReader); ok {
+				sr.close()
 			}
 		}
 	}
 	return writeChannelValues, newDependencies, nil
+}
+
+func uniqueKeys(keys []string) []string {
+	seen := make(map[string]struct{}, len(keys))
+	ret := keys[:0]
+	for _, key := range keys {
+		if _, ok := seen[key]; !ok {
+			seen[key] = struct{}{}
+			ret = append(ret, key)
+		}
+	}
+	return ret
 }
 
 func (r *runner) calculateBranch(ctx context.Context, curNodeKey string, startChan *chanCall, input []any, isStream bool, cm *channelManager) ([]string, error) {
